@@ -336,6 +336,11 @@ def run(ctx):
         c = l.edges.crossing
         if np.any(c[:, 0] * c[:, 1] == -1):
             extra.append((f"vor-antidiag#{found}", l)); found += 1
+    # non-convex plaquettes lying across the cell walls (a wall meets their boundary four or more times): rings through random star-shaped polygons and combs
+    for t in range(10 if quick else 60):
+        extra.append((f"star-ring#{t}", zoo.star_ring(rng)))
+        if t % 2 == 0:
+            extra.append((f"comb-ring#{t}", zoo.comb_ring(rng)))
     for name, l in extra:
         l = zoo.rebuild(l)
         if np.any(np.abs(l.edges.vectors) >= 1):
@@ -372,6 +377,14 @@ def run(ctx):
                 ref.append((i, l.vertices.positions[p.vertices[0]] + np.cumsum(vec, 0)))
             ncell = sum(1 for i, pts in ref if (np.floor(pts.min(axis=0)) != np.floor(pts.max(axis=0))).all())
             if ncell: ctx.count("plaquettes_wrapping_round_a_cell_corner", ncell)
+            nmulti = 0
+            for i, pts in ref:
+                q = np.vstack([pts, pts[:1]])
+                for ax_ in (0, 1):
+                    for w in (0, 1):
+                        if np.sum((q[:-1, ax_] - w) * (q[1:, ax_] - w) < 0) > 2:
+                            nmulti += 1
+            if nmulti: ctx.count("plaquette_walls_crossed_more_than_twice", nmulti)
             if judge_polygons(range(F), ref, drawn, rep):
                 ctx.case((name, "plaquettes", "all"), nontrivial=True)
         except Exception as ex:
